@@ -2,6 +2,7 @@ package gov
 
 import (
 	"encoding/json"
+	"os/exec"
 	"fmt"
 	"os"
 	"path/filepath"
@@ -19,6 +20,47 @@ type Mutant struct {
 	Expect  string `json:"expect"` // "fail" (must be detected) or "pass" (semantics-preserving: must stay green)
 	Obl     string `json:"obligation,omitempty"` // substring of an obligation expected to fail
 	Note    string `json:"note,omitempty"`
+	Patch   string `json:"patch,omitempty"` // alternative to file/find/replace: a unified diff (path relative to /verif) applied to copies of the files it touches
+}
+
+// patchOverlay applies a unified diff to copies of the files it names and returns the changed contents.
+func patchOverlay(repo, patchFile string) (map[string][]byte, error) {
+	b, err := os.ReadFile(patchFile)
+	if err != nil {
+		return nil, err
+	}
+	var files []string
+	for _, l := range strings.Split(string(b), "\n") {
+		if strings.HasPrefix(l, "+++ b/") {
+			files = append(files, strings.TrimSpace(strings.TrimPrefix(l, "+++ b/")))
+		}
+	}
+	tmp, err := os.MkdirTemp("", "govpatch")
+	if err != nil {
+		return nil, err
+	}
+	defer os.RemoveAll(tmp)
+	for _, f := range files {
+		src, err := os.ReadFile(filepath.Join(repo, f))
+		if err != nil {
+			return nil, err
+		}
+		os.MkdirAll(filepath.Dir(filepath.Join(tmp, f)), 0o755)
+		os.WriteFile(filepath.Join(tmp, f), src, 0o644)
+	}
+	cmd := exec.Command("patch", "-p1", "-s", "-d", tmp, "-i", patchFile)
+	if out, err := cmd.CombinedOutput(); err != nil {
+		return nil, fmt.Errorf("patch does not apply (mutant is stale): %s", strings.TrimSpace(string(out)))
+	}
+	ov := map[string][]byte{}
+	for _, f := range files {
+		nb, err := os.ReadFile(filepath.Join(tmp, f))
+		if err != nil {
+			return nil, err
+		}
+		ov[filepath.Join(repo, f)] = nb
+	}
+	return ov, nil
 }
 
 func LoadMutants(dir string) ([]Mutant, error) {
@@ -50,18 +92,28 @@ type MutantResult struct {
 // RunMutant checks one mutant: the property check must report a violation (expect fail) or stay green (expect pass).
 func RunMutant(m Mutant, repo, verif string) MutantResult {
 	res := MutantResult{Mutant: m}
-	path := filepath.Join(repo, m.File)
-	src, err := os.ReadFile(path)
-	if err != nil {
-		res.Detail = err.Error()
-		return res
+	var overlay map[string][]byte
+	if m.Patch != "" {
+		ov, err := patchOverlay(repo, filepath.Join(verif, m.Patch))
+		if err != nil {
+			res.Detail = err.Error()
+			return res
+		}
+		overlay = ov
+	} else {
+		path := filepath.Join(repo, m.File)
+		src, err := os.ReadFile(path)
+		if err != nil {
+			res.Detail = err.Error()
+			return res
+		}
+		if strings.Count(string(src), m.Find) != 1 {
+			res.Detail = fmt.Sprintf("pattern occurs %d times in %s (mutant is stale)", strings.Count(string(src), m.Find), m.File)
+			return res
+		}
+		overlay = map[string][]byte{path: []byte(strings.Replace(string(src), m.Find, m.Replace, 1))}
 	}
-	if strings.Count(string(src), m.Find) != 1 {
-		res.Detail = fmt.Sprintf("pattern occurs %d times in %s (mutant is stale)", strings.Count(string(src), m.Find), m.File)
-		return res
-	}
-	mut := strings.Replace(string(src), m.Find, m.Replace, 1)
-	rep, err := RunCheck(CheckOpts{Prop: m.Prop, Tier: "quick", RepoDir: repo, VerifDir: verif, Overlay: map[string][]byte{path: []byte(mut)},
+	rep, err := RunCheck(CheckOpts{Prop: m.Prop, Tier: "quick", RepoDir: repo, VerifDir: verif, Overlay: overlay,
 		NoEvid: true, Fast: true, OutDir: filepath.Join(verif, "out", "selftest", m.ID)})
 	if err != nil {
 		res.Detail = "check error: " + err.Error()
